@@ -18,8 +18,9 @@ AggOK(kind, col, S, o, tol) ==
     [] kind = "mean"  -> Close(Mul(o, FromInt(Cardinality(S))), SumOver(col, S), tol)
     [] kind = "max"   -> EQ(o, MaxOver(col, S))
     [] kind = "min"   -> EQ(o, MinOver(col, S))
-    [] kind = "any"   -> Truthy(o) = (\E j \in S : Truthy(col[j]))
-    [] kind = "all"   -> Truthy(o) = (\A j \in S : Truthy(col[j]))
+    \* any / all are truth values: exactly 1 or 0, not merely something truthy
+    [] kind = "any"   -> EQ(o, IF \E j \in S : Truthy(col[j]) THEN One ELSE Zero)
+    [] kind = "all"   -> EQ(o, IF \A j \in S : Truthy(col[j]) THEN One ELSE Zero)
     [] kind = "count" -> EQ(o, FromInt(Cardinality(S)))
 GroupAggOK(kind, col, ids, obs, tol) == \A i \in 1..Len(ids) : AggOK(kind, col, Members(ids, i), obs[i], tol)
 Receivers(ptr, p) == {j \in 1..Len(ptr) : ptr[j] = p}
